@@ -793,3 +793,354 @@ Lemma fault_run_example :
   all_exited s = true /\ get_c s 1 = Some (CDone (OCause CRecv)) /\ get_c s 2 = Some (CDone (OCause CRecv)) /\
   is_connected s = false /\ started (run VNow init [LRecvFault]) = true /\ mu (run VNow init [LRecvFault]) = 10%nat.
 Proof. vm_compute. repeat split. Qed.
+
+(* ================= ping / inactivity ================= *)
+
+(* ---------- the ping layer is a refinement of the base protocol ---------- *)
+Lemma pstep_base old p l : pb (pstep old p l) = run old (pb p) (base_of old p l).
+Proof.
+  unfold pstep, base_of. destruct (penabled old p l) eqn:E; [|reflexivity].
+  destruct l as [l'|[|]| |stale]; cbn [peffect]; try reflexivity.
+  unfold is_inactive. cbn [fst snd]. destruct (p_max _ <=? _); reflexivity.
+Qed.
+
+Lemma prun_base old tr : forall p, pb (prun old p tr) = run old (pb p) (base_trace old p tr).
+Proof.
+  induction tr as [|l tr IH]; intro p; [reflexivity|].
+  cbn [prun fold_left base_trace]. change (fold_left (pstep old) tr (pstep old p l)) with (prun old (pstep old p l) tr).
+  rewrite IH, pstep_base, run_app. reflexivity.
+Qed.
+
+Lemma prun_app old p a b : prun old p (a ++ b) = prun old (prun old p a) b.
+Proof. unfold prun. apply fold_left_app. Qed.
+
+Lemma pstep_max old p l : p_max (pstep old p l) = p_max p.
+Proof.
+  unfold pstep. destruct (penabled old p l); [|reflexivity].
+  destruct l as [l'|[|]| |stale]; cbn [peffect]; try reflexivity.
+  - destruct (is_received l'); reflexivity.
+  - unfold is_inactive. destruct (_ <=? _); reflexivity.
+Qed.
+
+Lemma prun_max old tr : forall p, p_max (prun old p tr) = p_max p.
+Proof. induction tr as [|l tr IH]; intro p; [reflexivity|]. cbn. unfold prun in IH. rewrite IH. apply pstep_max. Qed.
+
+(* ---------- the count: cumulative, never reset ---------- *)
+Definition tick_weight (old : variant) (p : pstate) (l : plabel) : N :=
+  match l with LInactTick true => if penabled old p l then 1 else 0 | _ => 0 end.
+
+Lemma pstep_count old p l : p_count (pstep old p l) = p_count p + tick_weight old p l.
+Proof.
+  unfold pstep, tick_weight. destruct (penabled old p l) eqn:E.
+  - destruct l as [l'|[|]| |[|]]; cbn [peffect]; rewrite ?N.add_0_r; try reflexivity.
+    + destruct (is_received l'); reflexivity.
+    + unfold is_inactive. destruct (_ <=? _); reflexivity.
+    + unfold is_inactive. destruct (_ <=? _); reflexivity.
+  - destruct l as [l'|[|]| |[|]]; rewrite ?N.add_0_r; reflexivity.
+Qed.
+
+Lemma prun_count old tr : forall p, p_count (prun old p tr) = p_count p + stale_ticks old p tr.
+Proof.
+  induction tr as [|l tr IH]; intro p; [cbn; rewrite N.add_0_r; reflexivity|].
+  cbn [prun fold_left stale_ticks]. change (fold_left (pstep old) tr (pstep old p l)) with (prun old (pstep old p l) tr).
+  rewrite IH, pstep_count. unfold tick_weight. lia.
+Qed.
+
+Theorem inactivity_count_monotone : forall maxf tr l, let p := prun VNow (pinit maxf) tr in
+  p_count p <= p_count (pstep VNow p l) /\
+  p_count p = stale_ticks VNow (pinit maxf) tr /\
+  p_max p = maxf /\
+  (forall stale, penabled VNow p (LInactTick stale) = true ->
+     let c := if stale then p_count p + 1 else p_count p in
+     pb (pstep VNow p (LInactTick stale)) = if maxf <=? c then step VNow (pb p) LInactive else pb p).
+Proof.
+  intros maxf tr l p. split; [rewrite pstep_count; lia|].
+  split; [unfold p; rewrite prun_count; reflexivity|].
+  assert (M : p_max p = maxf) by (unfold p; rewrite prun_max; reflexivity).
+  split; [exact M|].
+  intros stale E. unfold pstep. rewrite E. cbn [peffect]. unfold is_inactive. cbn [set_active set_count p_max p_count].
+  rewrite M. destruct stale; destruct (maxf <=? _); reflexivity.
+Qed.
+
+(* ---------- no stale tick, no inactivity cause ---------- *)
+Definition rclean (r : res) : Prop := r <> Some CInactive.
+Record clean (s : state) : Prop := {
+  cl_sp : forall r, sp s = SReport r \/ sp s = OCloseFront r \/ sp s = OClosing r \/ sp s = OReport r -> rclean r;
+  cl_rp : forall r, rp s = RReport r -> rclean r;
+  cl_wp : forall r, wp s = WGot r -> rclean r;
+  cl_slot : forall r, slot s = Some r -> rclean r;
+  cl_first : forall r, h_first s = Some r -> rclean r;
+  cl_reason : reason s <> Some CInactive
+}.
+
+Lemma clean_init : clean init.
+Proof. constructor; cbn; intros; try discriminate; intuition discriminate. Qed.
+
+Lemma clean_ext s s' : sp s' = sp s -> rp s' = rp s -> wp s' = wp s -> slot s' = slot s -> h_first s' = h_first s ->
+  reason s' = reason s -> clean s -> clean s'.
+Proof. intros P1 P2 P3 P4 P5 P6 []. constructor; rewrite ?P1, ?P2, ?P3, ?P4, ?P5, ?P6; assumption. Qed.
+
+Lemma clean_push s r : clean s -> rclean r -> clean (push s r).
+Proof.
+  intros C R. unfold push. destruct (rx_closed s); [exact C|]. destruct C as [C1 C2 C3 C4 C5 C6].
+  constructor; cbn; auto.
+  - intros r' H. inversion H; subst. exact R.
+  - intros r' H. destruct (h_first s) eqn:F; [apply C5; exact H | inversion H; subst; exact R].
+Qed.
+
+Lemma clean_step old s l : l <> LInactive -> clean s -> clean (step old s l).
+Proof.
+  intros NL C. unfold step. destruct (enabled old s l) eqn:E; [|exact C].
+  destruct (pop_ctl s) as (P1&P2&P3&P4&P5&P6&P7&P8&P9&P10).
+  assert (CP : clean (pop_to_mgr s)) by (apply (clean_ext s); auto).
+  destruct l; try congruence; cbn [effect].
+  all: try solve [apply (clean_ext s); auto; try (destruct (front_closed s); reflexivity)].
+  all: try solve [destruct C as [C1 C2 C3 C4 C5 C6]; constructor; cbn; auto;
+                  unfold after_break; destruct (old_order old); intros r H;
+                  repeat (destruct H as [H|H]); try discriminate; inversion H; subst; unfold rclean; discriminate].
+  all: try solve [destruct C as [C1 C2 C3 C4 C5 C6]; constructor; cbn; auto; intros r H; inversion H; subst; unfold rclean; discriminate].
+  - (* LSendFault *) destruct CP as [C1 C2 C3 C4 C5 C6]. constructor; cbn; auto.
+    unfold after_break; destruct (old_order old); intros r H;
+      repeat (destruct H as [H|H]); try discriminate; inversion H; subst; unfold rclean; discriminate.
+  - (* LSReport *) destruct (sp s) eqn:Q; try exact C.
+    + assert (R : rclean r) by (apply (cl_sp s C); left; exact Q).
+      pose proof (clean_push s r C R) as [C1 C2 C3 C4 C5 C6]. destruct (push_pcs s r) as (X1&X2&X3).
+      constructor; cbn; auto. intros r' H. destruct (no_wait old); repeat (destruct H as [H|H]); discriminate.
+    + assert (R : rclean r) by (apply (cl_sp s C); right; right; right; exact Q).
+      pose proof (clean_push s r C R) as [C1 C2 C3 C4 C5 C6].
+      constructor; cbn; auto. intros r' H. repeat (destruct H as [H|H]); discriminate.
+  - (* LSCloseFront *) destruct C as [C1 C2 C3 C4 C5 C6]. destruct (sp s) eqn:Q; constructor; cbn; auto;
+      intros r' H; repeat (destruct H as [H|H]); try discriminate.
+    inversion H; subst. apply (C1 r'). right; left; reflexivity.
+  - (* LSTransportClosed *) destruct C as [C1 C2 C3 C4 C5 C6]. destruct (sp s) eqn:Q; constructor; cbn; auto;
+      intros r' H; repeat (destruct H as [H|H]); try discriminate.
+    inversion H; subst. apply (C1 r'). right; right; left; reflexivity.
+  - (* LRReport *) destruct (rp s) eqn:Q; try exact C.
+    assert (R : rclean r) by (apply (cl_rp s C); exact Q).
+    pose proof (clean_push s r C R) as [C1 C2 C3 C4 C5 C6].
+    constructor; cbn; auto. intros r' H. discriminate.
+  - (* LWRecv *) destruct (slot s) eqn:Q; [|exact C]. destruct C as [C1 C2 C3 C4 C5 C6]. constructor; cbn; auto.
+    + intros r' H. inversion H; subst. apply C4. exact Q.
+    + discriminate.
+  - (* LWStore *) destruct C as [C1 C2 C3 C4 C5 C6]. destruct (wp s) as [|[c|]| |] eqn:Q; constructor; cbn; auto; try discriminate.
+    intro H. inversion H; subst. apply (C3 (Some CInactive)); reflexivity.
+Qed.
+
+Lemma clean_run old tr : forall s, ~ In LInactive tr -> clean s -> clean (run old s tr).
+Proof.
+  induction tr as [|l tr IH]; intros s N C; [exact C|].
+  cbn. apply IH; [intro X; apply N; right; exact X|]. apply clean_step; [intro X; apply N; left; auto | exact C].
+Qed.
+
+(* without a stale tick the count stays 0 and the inactivity arm never breaks *)
+Lemma never_step old p l : 0 < p_max p -> tick_weight old p l = 0 -> p_count p = 0 -> clean (pb p) ->
+  p_count (pstep old p l) = 0 /\ clean (pb (pstep old p l)).
+Proof.
+  intros M W Z C. split; [rewrite pstep_count, W, Z; reflexivity|].
+  rewrite pstep_base. apply clean_run; [|exact C].
+  unfold base_of. destruct (penabled old p l) eqn:E; [|intros []].
+  destruct l as [l'|[|]| |[|]]; cbn [In]; try tauto.
+  - intros [X|[]]. subst l'. discriminate E.
+  - intros [X|[]]. discriminate X.
+  - unfold tick_weight in W. rewrite E in W. discriminate W.
+  - unfold is_inactive. cbn [snd set_active p_count p_max]. rewrite Z.
+    destruct (p_max p <=? 0) eqn:L; [apply N.leb_le in L; lia | intros []].
+Qed.
+
+Lemma never_run old tr : forall p, 0 < p_max p -> stale_ticks old p tr = 0 -> p_count p = 0 -> clean (pb p) ->
+  p_count (prun old p tr) = 0 /\ clean (pb (prun old p tr)).
+Proof.
+  induction tr as [|l tr IH]; intros p M S Z C; [split; assumption|].
+  cbn [stale_ticks] in S. assert (W : tick_weight old p l = 0) by (unfold tick_weight; lia).
+  assert (S' : stale_ticks old (pstep old p l) tr = 0) by lia.
+  destruct (never_step old p l M W Z C) as [Z' C'].
+  cbn [prun fold_left]. apply IH; auto. rewrite pstep_max. exact M.
+Qed.
+
+Lemma no_stale_label old tr : forall p, (forall l, In l tr -> l <> LInactTick true) -> stale_ticks old p tr = 0.
+Proof.
+  induction tr as [|l tr IH]; intros p H; [reflexivity|].
+  cbn [stale_ticks]. rewrite IH; [|intros l' X; apply H; right; exact X].
+  destruct l as [l'|[|]| |[|]]; try reflexivity. exfalso. apply (H (LInactTick true)); [left|]; reflexivity.
+Qed.
+
+Theorem active_never_inactive : forall maxf tr, 0 < maxf -> stale_ticks VNow (pinit maxf) tr = 0 ->
+  let p := prun VNow (pinit maxf) tr in
+  p_count p = 0 /\ reason (pb p) <> Some CInactive /\ h_first (pb p) <> Some (Some CInactive) /\
+  rp (pb p) <> RReport (Some CInactive) /\
+  forall h, get_c (pb p) h <> Some (CDone (OCause CInactive)).
+Proof.
+  intros maxf tr M S p.
+  destruct (never_run VNow tr (pinit maxf) M S eq_refl clean_init) as [Z C]. fold p in Z, C.
+  split; [exact Z|]. split; [exact (cl_reason _ C)|].
+  split; [intro X; exact (cl_first _ C _ X eq_refl)|].
+  split; [intro X; exact (cl_rp _ C _ X eq_refl)|].
+  intros h G. unfold p in G, C. rewrite prun_base in G, C. cbn [pb pinit] in G, C.
+  apply observed_cause_is_reason in G. destruct G as [G _]. exact (cl_reason _ C G).
+Qed.
+
+Theorem fresh_ticks_never_inactive : forall maxf tr, 0 < maxf -> (forall l, In l tr -> l <> LInactTick true) ->
+  let p := prun VNow (pinit maxf) tr in
+  p_count p = 0 /\ reason (pb p) <> Some CInactive /\ h_first (pb p) <> Some (Some CInactive) /\
+  rp (pb p) <> RReport (Some CInactive) /\
+  forall h, get_c (pb p) h <> Some (CDone (OCause CInactive)).
+Proof. intros maxf tr M H. apply active_never_inactive; [exact M | apply no_stale_label; exact H]. Qed.
+
+(* ---------- messages between the ticks: ticks on time + regular traffic ---------- *)
+Lemma regular_no_stale old tr : forall p, regular old p tr -> stale_ticks old p tr = 0.
+Proof.
+  induction tr as [|l tr IH]; intros p R; [reflexivity|]. destruct R as [R1 R2].
+  cbn [stale_ticks]. rewrite (IH _ R2).
+  destruct l as [l'|[|]| |[|]]; try reflexivity.
+  cbn [N.add]. destruct (penabled old p (LInactTick true)) eqn:E; [|reflexivity].
+  destruct (R1 true eq_refl eq_refl) as [A T]. cbn in T. rewrite A in T. discriminate T.
+Qed.
+
+(* ---------- a connection that is up: nothing has been reported ---------- *)
+Lemma quiet_step s l : started (step VNow s l) = false ->
+  started s = false /\ h_first (step VNow s l) = h_first s /\ h_recvend (step VNow s l) = h_recvend s.
+Proof.
+  unfold step. destruct (enabled VNow s l) eqn:E; [|tauto].
+  destruct (pop_ctl s) as (P1&P2&P3&P4&P5&P6&P7&P8&P9&P10).
+  unfold started, sp_is_loop, rp_is_loop.
+  destruct l; cbn [effect after_break old_order no_wait];
+    cbn [sp rp wp dropped h_first h_recvend set_sp set_rp set_wp set_c set_callers set_fqueue set_dropped set_recvend
+         set_rx_closed set_slot set_reason set_front_closed negb orb];
+    rewrite ?P1, ?P2, ?P3, ?P8, ?P9, ?P10, ?orb_true_r; try (intro X; discriminate X); try tauto.
+  all: enab E; rwq.
+  all: try (intro X; discriminate X).
+  all: repeat match goal with |- context [push ?s ?r] => destruct (push_pcs s r) as (X1&X2&X3); rewrite ?X1, ?X2, ?X3; clear X1 X2 X3 end.
+  all: try (destruct r; cbn); try (destruct (front_closed s); cbn).
+  all: rewrite ?orb_true_r; cbn [orb]; try (intro X; discriminate X); try tauto.
+  all: intro X; apply orb_false_elim in X as [X _]; rewrite X; auto.
+Qed.
+
+Lemma quiet_run tr : forall s, started (run VNow s tr) = false ->
+  started s = false /\ h_first (run VNow s tr) = h_first s /\ h_recvend (run VNow s tr) = h_recvend s.
+Proof.
+  induction tr as [|l tr IH]; intros s H; [auto|].
+  cbn [run fold_left] in *. destruct (IH _ H) as (A & B & C). destruct (quiet_step s l A) as (A' & B' & C').
+  unfold run in *. split; [exact A'|]. split; congruence.
+Qed.
+
+(* the control state of a connection that is up *)
+Lemma up_state tr : let s := run VNow init tr in started s = false ->
+  sp s = SLoop /\ rp s = RLoop /\ wp s = WWait /\ slot s = None /\ rx_closed s = false /\ reason s = None /\
+  front_closed s = false /\ dropped s = false /\ h_first s = None /\ h_recvend s = false.
+Proof.
+  intros s St. destruct (quiet_run tr init St) as (_ & F & E). cbn in F, E. fold s in F, E.
+  destruct (reach_inv tr) as [C _]. fold s in C.
+  unfold started, sp_is_loop, rp_is_loop in St.
+  destruct (sp s) eqn:S; try discriminate St. destruct (rp s) eqn:R; try discriminate St.
+  destruct (wp s) eqn:W; try discriminate St. cbn in St.
+  destruct C as [I1 I2 I3 I4 I5 I6 I7 I8 I9 I10 I11 I12 I13].
+  assert (SL : slot s = None).
+  { destruct (I11 W) as [[A _]|[r [_ B]]]; [exact A | congruence]. }
+  assert (RX : rx_closed s = false).
+  { destruct (rx_closed s); [|reflexivity]. destruct I4 as [A _]. specialize (A eq_refl). congruence. }
+  assert (RS : reason s = None).
+  { destruct (reason s) as [c|] eqn:Q; [|reflexivity]. destruct (I10 c eq_refl) as [A _]. rewrite W in A. contradiction. }
+  assert (FC : front_closed s = false).
+  { destruct (front_closed s); [|reflexivity]. destruct I2 as [A _]. specialize (A eq_refl). rewrite S in A. contradiction. }
+  repeat split; auto.
+Qed.
+
+Lemma drive_is_run old slow f : forall s, exists tr, drive old slow f s = run old s tr.
+Proof.
+  induction f as [|f IH]; intro s; [exists []; reflexivity|].
+  cbn [drive]. destruct (next_proto old slow s) as [l|]; [|exists []; reflexivity].
+  destruct (IH (step old s l)) as [tr E]. exists (l :: tr). exact E.
+Qed.
+
+(* the inactivity arm breaks in a connection that is up: the protocol runs to its end with that cause *)
+Lemma inactive_drive s : sp s = SLoop -> rp s = RLoop -> wp s = WWait -> slot s = None -> rx_closed s = false ->
+  reason s = None -> front_closed s = false -> dropped s = false -> h_first s = None ->
+  let s1 := step VNow s LInactive in
+  let s2 := drive VNow false (mu s1) s1 in
+  rp s1 = RReport (Some CInactive) /\ all_exited s2 = true /\ sp s2 = SExited /\ rp s2 = RExited /\
+  reason s2 = Some CInactive /\ h_first s2 = Some (Some CInactive) /\ front_closed s2 = true /\ dropped s2 = false /\
+  h_recvend s2 = h_recvend s /\ callers s2 = callers s /\ fqueue s2 = fqueue s.
+Proof.
+  destruct s; cbn [ClientShutdown.sp ClientShutdown.rp ClientShutdown.wp ClientShutdown.slot ClientShutdown.rx_closed
+                   ClientShutdown.reason ClientShutdown.front_closed ClientShutdown.dropped ClientShutdown.h_first].
+  intros; subst. cbv. repeat split; reflexivity.
+Qed.
+
+Theorem inactivity_fails_everything : forall maxf tr, let p := prun VNow (pinit maxf) tr in
+  started (pb p) = false -> maxf <= p_count p + 1 ->
+  let p1 := pstep VNow p (LInactTick true) in
+  let s2 := drive VNow false (mu (pb p1)) (pb p1) in
+  p_count p1 = p_count p + 1 /\ rp (pb p1) = RReport (Some CInactive) /\
+  all_exited s2 = true /\ reason s2 = Some CInactive /\ h_first s2 = Some (Some CInactive) /\ is_connected s2 = false /\
+  (forall h, get_c s2 h = get_c (pb p) h) /\
+  forall h,
+    match get_c (pb p) h with
+    | Some (CDone OOk) => True                      (* answered while the connection was up *)
+    | Some (CDone _) | Some CGone => False
+    | Some _ => get_c (run VNow s2 [LCallerDropped h; LReadErr h]) h = Some (CDone (OCause CInactive))
+    | None => get_c (run VNow s2 [LNewCall h; LReadErr h]) h = Some (CDone (OCause CInactive)) /\
+              get_c (run VNow s2 [LOnDisc h; LReadErr h]) h = Some (CDone (OCause CInactive))
+    end.
+Proof.
+  intros maxf tr p St Le p1 s2.
+  assert (PB : pb p = run VNow init (base_trace VNow (pinit maxf) tr)) by (unfold p; rewrite prun_base; reflexivity).
+  assert (M : p_max p = maxf) by (unfold p; rewrite prun_max; reflexivity).
+  pose proof St as St'. rewrite PB in St'.
+  destruct (up_state _ St') as (S & R & W & SL & RX & RS & FC & D & HF & HE). rewrite <- PB in *.
+  assert (E : penabled VNow p (LInactTick true) = true).
+  { cbn. unfold rp_is_loop. rewrite R, RX. reflexivity. }
+  assert (P1 : pb p1 = step VNow (pb p) LInactive /\ p_count p1 = p_count p + 1).
+  { unfold p1, pstep. rewrite E. cbn [peffect]. unfold is_inactive. cbn [set_active set_count p_max p_count].
+    rewrite M. destruct (maxf <=? p_count p + 1) eqn:L; [split; reflexivity|]. apply N.leb_gt in L. lia. }
+  destruct P1 as [P1 P1c].
+  destruct (inactive_drive (pb p) S R W SL RX RS FC D HF) as (A1 & A2 & A3 & A4 & A5 & A6 & A7 & A8 & A9 & A10 & A11).
+  cbv zeta in A1, A2, A3, A4, A5, A6, A7, A8, A9, A10, A11. rewrite <- P1 in *. fold s2 in A2, A3, A4, A5, A6, A7, A8, A9, A10, A11.
+  split; [exact P1c|]. split; [exact A1|]. split; [exact A2|]. split; [exact A5|]. split; [exact A6|].
+  split; [unfold is_connected; rewrite A7; reflexivity|].
+  assert (GC : forall h, get_c s2 h = get_c (pb p) h) by (intro h; unfold get_c; rewrite A10; reflexivity).
+  split; [exact GC|].
+  (* s2 is reachable: the existing theorem applies *)
+  destruct (drive_is_run VNow false (mu (pb p1)) (pb p1)) as [trd Ed]. fold s2 in Ed.
+  assert (RS2 : s2 = run VNow init (base_trace VNow (pinit maxf) tr ++ LInactive :: trd)).
+  { rewrite run_app, <- PB. cbn [run fold_left]. rewrite <- P1. exact Ed. }
+  pose proof (all_pending_fail_with_cause (base_trace VNow (pinit maxf) tr ++ LInactive :: trd)) as AP.
+  cbv zeta in AP. rewrite <- RS2 in AP. rewrite HE in A9.
+  destruct (AP A3 A4 A8 A9) as (c & Rc & _ & _ & Hh). rewrite A5 in Rc. inversion Rc; subst c.
+  intro h. specialize (Hh h). rewrite GC in Hh.
+  destruct (get_c (pb p) h) as [[| | |[|c'|]|]|] eqn:G; auto.
+  (* a caller cannot have seen a cause while the connection is up *)
+  destruct (reach_inv (base_trace VNow (pinit maxf) tr)) as [_ K]. rewrite <- PB in K.
+  pose proof (k_cause _ K h c' G). congruence.
+Qed.
+
+(* ---------- witnesses ---------- *)
+Definition tr_ping_up : list plabel :=
+  [LBase (LNewCall 1); LBase LSendOk; LPingTick true; LInactTick true; LPong; LInactTick false; LBase (LNewCall 2); LBase (LNewCall 3);
+   LBase LSendOk; LBase (LAnswer 2)].
+
+Lemma inactivity_example :
+  let p := prun VNow (pinit 2) tr_ping_up in
+  started (pb p) = false /\ p_count p = 1 /\ h_pings p = 1 /\
+  let p1 := pstep VNow p (LInactTick true) in
+  let s2 := drive VNow false (mu (pb p1)) (pb p1) in
+  p_count p1 = 2 /\ all_exited s2 = true /\ reason s2 = Some CInactive /\
+  get_c (run VNow s2 [LCallerDropped 1; LReadErr 1]) 1 = Some (CDone (OCause CInactive)) /\
+  get_c s2 2 = Some (CDone OOk) /\
+  get_c (run VNow s2 [LCallerDropped 3; LReadErr 3]) 3 = Some (CDone (OCause CInactive)) /\
+  get_c (run VNow s2 [LOnDisc 4; LReadErr 4]) 4 = Some (CDone (OCause CInactive)) /\
+  (* the failures are cumulative, not consecutive: a pong and a fresh tick in between did not reset the count *)
+  stale_ticks VNow (pinit 2) (tr_ping_up ++ [LInactTick true]) = 2 /\
+  (* with max_failures = 3 the same history leaves the connection up *)
+  started (pb (prun VNow (pinit 3) (tr_ping_up ++ [LInactTick true]))) = false /\
+  (* a failing ping is the send-fault path *)
+  sp (pb (prun VNow (pinit 2) (tr_ping_up ++ [LBase LSendOk; LPingTick false]))) = SReport (Some CSend) /\
+  (* the ping arm does not run while a front-end message is queued (biased select) *)
+  penabled VNow (prun VNow (pinit 2) [LBase (LNewCall 1)]) (LPingTick true) = false.
+Proof. vm_compute. repeat split. Qed.
+
+Theorem regular_traffic_never_inactive : forall maxf tr, 0 < maxf -> regular VNow (pinit maxf) tr ->
+  let p := prun VNow (pinit maxf) tr in
+  p_count p = 0 /\ reason (pb p) <> Some CInactive /\ h_first (pb p) <> Some (Some CInactive) /\
+  rp (pb p) <> RReport (Some CInactive) /\
+  forall h, get_c (pb p) h <> Some (CDone (OCause CInactive)).
+Proof. intros maxf tr M H. apply active_never_inactive; [exact M | apply regular_no_stale; exact H]. Qed.
